@@ -7,7 +7,8 @@ Decided:
              capped at 2^24 - 1 bytes and divided by 8; declared constants equal the grammar's sums
   C11.frame  block framing: the writer flags a block last exactly when none follows, the reader stops on that flag,
              accepts a block only when its parser consumed exactly the declared size, and clamps reads to that size
-  C11.sentinel values the format reserves for "absent" (seek point placeholder marker, all-zero MD5) are not written as present values
+  C11.sentinel values the format reserves for "absent" (seek point placeholder marker, all-zero MD5) are not written as present values; the STREAMINFO reader
+             reports "no digest" exactly for the all-zero field
   C11.isrc   an ISRC parsed from text has exactly the 12 characters of its on-disk field; the validated, dash-stripped text is stored
   C11.len    every length / count prefix is the length of the very collection written after it, and the reader
              reads exactly that many items (ranges start at 0)
@@ -44,6 +45,34 @@ def const_val(b, o):
 def grammar_term(b, t):
     import grammar
     return grammar.term_of(b, t)
+
+
+def md5_absent_reader_rule(F, rep, P):
+    """STREAMINFO's digest reads back as `None` exactly for the all-zero field (RFC 9639 8.2): the reader's test is
+    "some byte is non-zero" (any(!= 0) / !all(== 0) / a comparison with [0; 16])"""
+    R = P + ".sentinel"
+    sb = [b for b in F.bodies if b.promoted is None and b.path == "<metadata::Streaminfo as bitstream_io::FromBitStream>::from_reader"]
+    if not sb:
+        rep.bad(R, "anchor:Streaminfo::from_reader", "", "not found")
+        return
+    reg = [sb[0]] + F.closures_of(sb[0])
+    verdict = None
+    for c in reg:
+        for _, t in c.calls():
+            m = re.search(r"Iterator>?::(any|all)$", callee_name(t))
+            if m and t.get("cls"):
+                cb = F.body(t["cls"][0])
+                ops = [(s_["rv"]["op"], op_int(s_["rv"]["b"])) for bl in (cb.blocks if cb else []) for s_ in bl["s"] if s_["rv"]["r"] == "bin" and s_["rv"]["op"] in ("Eq", "Ne")]
+                if ops == [("Ne", 0)]:
+                    verdict = (m.group(1) == "any")            # any(b != 0): present iff some byte non-zero
+                elif ops == [("Eq", 0)]:
+                    verdict = "negated-all" if m.group(1) == "all" else False      # !all(b == 0) needs the negation checked below
+            if re.search(r"PartialEq.*::(eq|ne)$", callee_name(t)) and "[u8; 16]" in " ".join(t["aty"]):
+                verdict = True
+    if verdict == "negated-all":
+        verdict = any(s_["rv"]["r"] == "un" and s_["rv"]["op"] == "Not" for c in reg for bl in c.blocks for s_ in bl["s"])
+    rep.check(R, "Streaminfo::from_reader reports md5 = None exactly for the all-zero digest", verdict is True, loc_of(sb[0]), "",
+              "the 'is a digest stored' test of the STREAMINFO reader is not 'some byte is non-zero': digests that merely contain a zero byte (or none at all) are misread, and verification reports NoMD5 / compares against nothing")
 
 
 def contiguous_rules(F, ok, rep, P):
@@ -266,6 +295,7 @@ def run(ctx, rep):
     lenlib.length_prefix_rules(ctx, rep, "C11", floor_w=1, floor_r=1)
 
     contiguous_rules(F, ok, rep, "C11")
+    md5_absent_reader_rule(F, rep, "C11")
 
     # ---- C11.uniq ---------------------------------------------------------------------------------------------
     pairs_expected = {"seektable_read": "MultipleSeekTable", "vorbiscomment_read": "MultipleVorbisComment", "png_read": "MultiplePngIcon", "icon_read": "MultipleGeneralIcon"}
